@@ -117,7 +117,8 @@ def check_key_helper(
     if len(key) > 250:
         raise MemcacheIllegalInputError("Key is too long: %r" % key)
     # second statement catches leading or trailing whitespace
-    elif len(parts) > 1 or (parts and parts[0] != key):
+    elif len(parts) > 1 or (parts and parts[0] != key) or (key and not parts):
+        # third statement catches keys made of nothing but whitespace
         raise MemcacheIllegalInputError("Key contains whitespace: %r" % key)
     elif b"\00" in key:
         raise MemcacheIllegalInputError("Key contains null: %r" % key)
